@@ -31,7 +31,7 @@ NSHARD = 32
 
 def plan(tier, seed):
     q = tier == "quick"
-    return [{"name": "s%d" % i, "i": i, "hist": 70 if q else 5000, "c": 3 if q else 90} for i in range(NSHARD)]
+    return [{"name": "s%d" % i, "i": i, "hist": 70 if q else 20000, "c": 3 if q else 300} for i in range(NSHARD)]
 
 
 def kind_of(codes, cols_by_pop, project):
@@ -100,9 +100,15 @@ def gen_history(rng, ns, cols_by_pop, project, length):
 
 
 def check_L1(S, p):
+    if "replay" in p:
+        return check_L1_batch(S, p, [p["replay"]["i"]])
+    for lo in range(0, p["hist"], 1000):          # batches bound the memory of a shard
+        check_L1_batch(S, p, range(lo, min(p["hist"], lo + 1000)))
+
+
+def check_L1_batch(S, p, idxs):
     seed = S.seed
     cases = []
-    idxs = [p["replay"]["i"]] if "replay" in p else range(p["hist"])
     name = p["replay"]["name"] if "replay" in p else p["name"]
     for i in idxs:
         rng = rng_for(seed, "c11", name, "h", i)
